@@ -564,7 +564,9 @@ class Server(base_server.BaseServer):
                     packet.CONNECT_ERROR, data=fail_reason,
                     namespace=namespace))
             self.manager.disconnect(sid, namespace, ignore_queue=True)
-        elif not self.always_connect:
+        elif not self.always_connect and \
+                self.manager.is_connected(sid, namespace):
+            # (a connect handler may have disconnected the client itself)
             self._send_packet(eio_sid, self.packet_class(
                 packet.CONNECT, {'sid': sid}, namespace=namespace))
 
